@@ -7,6 +7,7 @@ import (
 	"math/rand"
 	"os"
 	"sync"
+	"time"
 
 	"verif/harness/internal/gate"
 	"verif/harness/internal/rec"
@@ -86,7 +87,7 @@ func cmdSeq(args []string) int {
 		go func(i int) {
 			defer wg.Done()
 			defer func() { <-sem }()
-			traces[i], results[i] = runScript(scripts[i], ctl)
+			withWatchdog("script "+scripts[i].ID, 300*time.Second, func() { traces[i], results[i] = runScript(scripts[i], ctl) })
 		}(i)
 	}
 	wg.Wait()
